@@ -528,3 +528,115 @@ class PathProv(Prov):
             t = bl["term"]
             if t["k"] == "call" and not t["dest"]["p"]:
                 self.defs[t["dest"]["l"]] = [("call", t, bl["line"])]
+
+
+# ------------------------------------------------------------------ MIR-level inlining of private helpers
+
+def _shift_place(pl, off):
+    if pl is None:
+        return pl
+    p2 = []
+    for e in pl["p"]:
+        if isinstance(e, dict) and "i" in e:
+            e = dict(e, i=e["i"] + off)
+        p2.append(e)
+    return {"l": pl["l"] + off, "p": p2}
+
+
+def _shift_operand(o, off):
+    if not isinstance(o, dict):
+        return o
+    if "c" in o:
+        return dict(o, c=_shift_place(o["c"], off))
+    if "m" in o:
+        return dict(o, m=_shift_place(o["m"], off))
+    return o
+
+
+def _shift_rv(rv, off):
+    rv = dict(rv)
+    for k in ("op", "a", "b"):
+        if k in rv and isinstance(rv[k], dict):
+            rv[k] = _shift_operand(rv[k], off)
+    if "ops" in rv:
+        rv["ops"] = [_shift_operand(o, off) for o in rv["ops"]]
+    if "place" in rv and isinstance(rv["place"], dict):
+        rv["place"] = _shift_place(rv["place"], off)
+    return rv
+
+
+def _shift_term(t, loff, boff, ret_to):
+    t = dict(t)
+    k = t["k"]
+    if k == "ret":
+        return {"k": "goto", "t": ret_to}
+    for key in ("t", "otherwise", "unwind"):
+        if key in t and isinstance(t[key], int):
+            t[key] = t[key] + boff
+    if k == "switch":
+        t["op"] = _shift_operand(t["op"], loff)
+        t["targets"] = [[v, tg + boff] for v, tg in t["targets"]]
+    if k == "call":
+        t["args"] = [dict(a, op=_shift_operand(a["op"], loff)) for a in t["args"]]
+        t["dest"] = _shift_place(t["dest"], loff)
+        if isinstance(t.get("func"), dict) and ("c" in t["func"] or "m" in t["func"]):
+            t["func"] = _shift_operand(t["func"], loff)
+    if k == "drop" and "place" in t:
+        t["place"] = _shift_place(t["place"], loff)
+    if k == "assert" and "op" in t and isinstance(t["op"], dict):
+        t["op"] = _shift_operand(t["op"], loff)
+    return t
+
+
+def inline_private_helpers(facts, body, resolve, max_depth=3, max_blocks=60):
+    """A copy of `body` in which every call to a small private crate-local function (as decided by `resolve(callee) -> body or None`)
+    is replaced by the callee's blocks: arguments are assigned to the callee's (renumbered) parameter locals, its `return`s jump to the
+    continuation, its return slot is copied to the call's destination.  What a Prov / path rule sees is then the same whether a piece of
+    the function was extracted into a helper or written inline.  Recursion and large callees are left as calls."""
+    import copy
+    out = copy.copy(dict(body))
+    out["blocks"] = [dict(bl, stmts=list(bl["stmts"]), term=dict(bl["term"])) for bl in body["blocks"]]
+    out["locals"] = list(body["locals"])
+    done = 0
+    stack_keys = {body["key"]}
+    work = [(i, 0) for i in range(len(out["blocks"]))]
+    while work:
+        bi, depth = work.pop()
+        bl = out["blocks"][bi]
+        t = bl["term"]
+        if t["k"] != "call" or depth >= max_depth:
+            continue
+        f = callee_of(t)
+        cb = resolve(f) if f is not None else None
+        if cb is None or cb["key"] in stack_keys or len(cb["blocks"]) > max_blocks or cb["kind"] == "Closure":
+            continue
+        if len(t["args"]) != cb["arg_count"] or t.get("t") is None:
+            continue
+        loff = len(out["locals"])
+        boff = len(out["blocks"])
+        out["locals"].extend(cb["locals"])
+        cont = t["t"]
+        # exit block: dest = move ret-local ; goto continuation
+        exit_idx = boff + len(cb["blocks"])
+        new_blocks = []
+        for cbl in cb["blocks"]:
+            stmts = []
+            for s in cbl["stmts"]:
+                if s["k"] == "assign":
+                    stmts.append(dict(s, place=_shift_place(s["place"], loff), rv=_shift_rv(s["rv"], loff)))
+                else:
+                    stmts.append(s)
+            new_blocks.append(dict(cbl, stmts=stmts, term=_shift_term(cbl["term"], loff, boff, exit_idx)))
+        exit_block = {"stmts": [{"k": "assign", "place": t["dest"], "rv": {"k": "use", "op": {"m": {"l": loff, "p": []}}}, "line": bl.get("line")}],
+                      "term": {"k": "goto", "t": cont}, "line": bl.get("line"), "cleanup": False}
+        # entry: assign the arguments, then jump into the callee
+        for ai, a in enumerate(t["args"]):
+            bl["stmts"].append({"k": "assign", "place": {"l": loff + 1 + ai, "p": []}, "rv": {"k": "use", "op": a["op"]}, "line": bl.get("line")})
+        bl["term"] = {"k": "goto", "t": boff}
+        out["blocks"].extend(new_blocks)
+        out["blocks"].append(exit_block)
+        done += 1
+        for k in range(boff, boff + len(new_blocks)):
+            work.append((k, depth + 1))
+    out["inlined_calls"] = done
+    return out
